@@ -69,6 +69,11 @@ def fmtMetaLive : Option Meta → String
   | none => "refused"
   | some m => s!"{m.protocol.rank} {fmtChannel m.channel} {fmtChannel m.host.1}:{m.host.2}"
 
+/-- the host entry whose certificate a client is shown -/
+def fmtMetaCert : Option Meta → String
+  | none => "refused"
+  | some m => s!"{fmtChannel m.host.1}:{m.host.2}"
+
 def sniTok (s : String) : String := if s == "-" then "" else s
 
 partial def runEvents (enabled : List Proto) (rp : Bool) (cur : Cfg) (n : Nat) (toks : List String)
@@ -85,6 +90,24 @@ partial def runEvents (enabled : List Proto) (rp : Bool) (cur : Cfg) (n : Nat) (
     match parseList rest with
     | some (alpn, sni :: rest) =>
       runEvents enabled rp cur (n - 1) rest (acc.push (fmtMeta (select cur (alpn.map parseAlpnTok) (sniTok sni))))
+    | _ => none
+  | _ => none
+
+/-- reload / connection histories as a TLS client over TCP observes them -/
+partial def runEventsCert (enabled : List Proto) (rp : Bool) (cur : Cfg) (n : Nat) (toks : List String)
+    (acc : Array String) : Option (Array String) :=
+  if n == 0 then some acc else
+  match toks with
+  | "R" :: rest =>
+    match parseHosts rest with
+    | some (h, loadable :: rest) =>
+      let h := { h with loadable := loadable == "1" }
+      runEventsCert enabled rp (reload enabled rp cur h).1 (n - 1) rest acc
+    | _ => none
+  | "S" :: rest =>
+    match parseList rest with
+    | some (alpn, sni :: rest) =>
+      runEventsCert enabled rp cur (n - 1) rest (acc.push (fmtMetaCert (tcpAccept cur (alpn.map parseAlpnTok) (some (sniTok sni)))))
     | _ => none
   | _ => none
 
@@ -121,6 +144,14 @@ def c05 (toks : List String) : String :=
   | "quic" :: e :: rp :: rest =>
     match parseHosts rest with
     | some (h, [sni]) => fmtMeta (quicAccept (mkCfg (parseEnabled e) (rp == "1") h) (if sni == "-" then none else some sni))
+    | _ => "bad-op"
+  | "runcert" :: e :: rp :: rest =>
+    match parseHosts rest with
+    | some (h, n :: rest) =>
+      let enabled := parseEnabled e
+      match runEventsCert enabled (rp == "1") (mkCfg enabled (rp == "1") h) n.toNat! rest #[] with
+      | some out => if out.isEmpty then "-" else ";".intercalate out.toList
+      | none => "bad-op"
     | _ => "bad-op"
   | "run" :: e :: rp :: rest =>
     match parseHosts rest with
